@@ -378,11 +378,14 @@ void typed_shapes(vt::Rng& rng)
 void misc_cases(vt::Rng& rng)
 {
     // remove_if over parallel tensors
-    for (int i = 0; i < 20; ++i)
+    for (int i = 0; i < 40; ++i)
     {
         const auto n = rng.range(0, 12);
         tensor_mem_t<int32_t, 1> rows(n);
         tensor_mem_t<int32_t, 2> rows2(n, 3);
+        // entries of higher rank: whole sub-tensors move (trailing dimensions 0..3, every element distinct: 1000 k + offset)
+        tensor_mem_t<int32_t, 3> rows3(n, rng.range(i < 4 ? 0 : 1, 3), rng.range(1, 3));
+        tensor_mem_t<int32_t, 4> rows4(n, rng.range(1, 2), rng.range(i < 4 ? 0 : 1, 3), rng.range(1, 3));
         std::vector<int64_t>     flags;
         for (tensor_size_t k = 0; k < n; ++k)
         {
@@ -390,14 +393,43 @@ void misc_cases(vt::Rng& rng)
             rows2.tensor(k).full(static_cast<int32_t>(k));
             flags.push_back(rng.coin(1, 3) ? 1 : 0);
         }
-        const auto size = remove_if([&](tensor_size_t k) { return flags[static_cast<size_t>(k)] != 0; }, rows, rows2);
-        std::vector<int64_t> kept, kept2;
+        const auto fill = [&](auto& t)
+        {
+            const auto inner = n == 0 ? tensor_size_t{0} : t.size() / n;
+            for (tensor_size_t q = 0; q < t.size(); ++q)
+            {
+                t(q) = static_cast<int32_t>(1000 * (q / std::max<tensor_size_t>(inner, 1)) + q % std::max<tensor_size_t>(inner, 1));
+            }
+            return inner;
+        };
+        const auto inner3 = fill(rows3), inner4 = fill(rows4);
+        const auto size = remove_if([&](tensor_size_t k) { return flags[static_cast<size_t>(k)] != 0; }, rows, rows2, rows3, rows4);
+        std::vector<int64_t> kept, kept2, kept3, kept4;
+        const auto entry_of = [&](const auto& t, const tensor_size_t inner, const tensor_size_t k) -> int64_t
+        {
+            // the original first-axis position of the sub-tensor now stored at k, -1 when it is not one of the original sub-tensors
+            if (inner == 0)
+            {
+                return rows(k);
+            }
+            const auto base = static_cast<int64_t>(t(k * inner)) / 1000;
+            for (tensor_size_t q = 0; q < inner; ++q)
+            {
+                if (static_cast<int64_t>(t(k * inner + q)) != 1000 * base + q)
+                {
+                    return -1;
+                }
+            }
+            return base;
+        };
         for (tensor_size_t k = 0; k < size; ++k)
         {
             kept.push_back(rows(k));
             kept2.push_back(rows2(k, 0) == rows2(k, 2) ? rows2(k, 1) : -1);
+            kept3.push_back(entry_of(rows3, inner3, k));
+            kept4.push_back(entry_of(rows4, inner4, k));
         }
-        vt::put(vt::J("RemoveIf").a("flags", flags).i("size", size).a("rows", kept).a("rows2", kept2));
+        vt::put(vt::J("RemoveIf").a("flags", flags).i("size", size).a("rows", kept).a("rows2", kept2).a("rows3", kept3).a("rows4", kept4));
     }
     // stack: matrices/vectors concatenated
     for (int i = 0; i < 10; ++i)
